@@ -71,6 +71,11 @@ def make_field(c):
     return phi + c.get("const", 0.0), gx, gy
 
 
+def exceeds(err, tol) -> bool:
+    """`err > tol` that also fires on NaN / inf"""
+    return not (float(err) <= float(tol))
+
+
 class C40(Property):
     id = "C40"
     props_file = "AbtemVerif/Props/C40.lean"
@@ -138,6 +143,12 @@ class C40(Property):
             return {"kind": "com", "nx": nx, "ny": ny, "sx": rng.choice([0.02, 0.05, 0.031]), "sy": rng.choice([0.02, 0.05, 0.031]),
                     "shifted": rng.random() < 0.5, "units": rng.choice(["1/Å", "mrad"]), "pixel": [rng.randrange(nx), rng.randrange(ny)],
                     "weight": rng.choice([1.0, 1.0, 2.0, 0.25]), "seed": rng.randint(0, 10 ** 6), "energy": rng.choice([80e3, 200e3])}
+        if rng.random() < 0.45:
+            nx, ny = rng.randint(2, 9), rng.randint(2, 9)
+            return {"kind": "com_layout", "nx": nx, "ny": ny, "sx": rng.choice([0.02, 0.05, 0.031]), "sy": rng.choice([0.02, 0.05, 0.031]),
+                    "shifted": rng.random() < 0.5, "units": rng.choice(["1/Å", "mrad"]), "seed": rng.randint(0, 10 ** 6), "energy": rng.choice([80e3, 200e3]),
+                    "layout": rng.choice(["SS", "S", "", "OSS", "SOS"]), "dtype": rng.choice(["float64", "float32"]), "lazy": rng.random() < 0.4,
+                    "content": rng.choice(["pixels", "random"])}
         nx, ny = rng.randint(6, 20), rng.randint(6, 20)
         modes = []
         for _ in range(rng.randint(1, 4)):
@@ -147,7 +158,7 @@ class C40(Property):
                 h = 1
             modes.append([h, k, rng.uniform(0.2, 2.0), rng.uniform(0, 6.28)])
         return {"kind": "grad", "gpts": [nx, ny], "sampling": [rng.choice([0.1, 0.2, 0.37]), rng.choice([0.1, 0.2, 0.37])], "modes": modes,
-                "const": rng.uniform(-3, 3), "lazy": rng.random() < 0.35}
+                "const": rng.uniform(-3, 3), "lazy": rng.random() < 0.35, "stack": rng.choice([0, 0, 2, 3]), "dtype": rng.choice(["complex128", "complex128", "complex64"])}
 
     def oracle(self, ctx: Ctx, c):
         import abtem
@@ -172,7 +183,7 @@ class C40(Property):
             kx, ky = fx[p[0]] * s[0], fy[p[1]] * s[1]
             scale = max(abs(kx), abs(ky), s[0], s[1])
             # the centre of mass of a single bright pixel is that pixel's frequency (angle), whatever its brightness
-            if abs(got - complex(kx, ky)) > 1e-5 * scale:
+            if exceeds(abs(got - complex(kx, ky)), 1e-5 * scale):
                 key = "com-unshifted-coordinates" if not c["shifted"] else "com-shifted-coordinates"
                 if abs(got - c["weight"] * complex(kx, ky)) <= 1e-5 * scale * max(1.0, c["weight"]):
                     key = "com-not-normalised-by-total-intensity"
@@ -193,28 +204,88 @@ class C40(Property):
             got = complex(np.asarray(d.center_of_mass(units=c["units"]).array).reshape(-1)[0])
             ex = sum(b[0, 0, i, j] * fx[i] * s[0] for i in range(nx) for j in range(ny)) / b.sum()
             ey = sum(b[0, 0, i, j] * fy[j] * s[1] for i in range(nx) for j in range(ny)) / b.sum()
-            if abs(got - complex(ex, ey)) > 1e-5 * scale:
+            if exceeds(abs(got - complex(ex, ey)), 1e-5 * scale):
                 ctx.violation("com-not-weighted-mean", c, {"observed": [got.real, got.imag], "expected": [ex, ey]})
                 return False
             ctx.count(f"conf-com:{c['units']}:shifted={c['shifted']}:weight={'1' if c['weight'] == 1.0 else 'other'}")
             return True
-        # gradient integration
-        phi, gx, gy = make_field(c)
-        g = (gx + 1j * gy).astype(np.complex128)
-        if c.get("lazy"):
+        if c["kind"] == "com_layout":
+            # different patterns at every scan position, 0/1/2 scan axes, scan axes not leading, float32, lazy (chunked) input:
+            # every position's centre of mass is ITS pattern's intensity-weighted mean, delivered with the scan axes moved to the end
             import dask.array as da
-            # several blocks along BOTH image axes: integrate_gradient must gather whole images before the FFT
-            g = da.from_array(g, chunks=(max(2, g.shape[0] // 2), max(2, g.shape[1] // 3)))
-        im = Images(g, sampling=tuple(c["sampling"]))
+            from abtem.core.axes import OrdinalAxis
+            nx, ny = c["nx"], c["ny"]
+            rng = np.random.default_rng(c["seed"])
+            sizes = {"O": 2}
+            ens_shape, n_s = [], 0
+            for ch in c["layout"]:
+                ens_shape.append((2, 3)[min(n_s, 1)] if ch == "S" else sizes["O"])
+                n_s += ch == "S"
+            ens_shape = tuple(ens_shape)
+            a = np.zeros(ens_shape + (nx, ny))
+            for pos in np.ndindex(*ens_shape):
+                if c["content"] == "pixels":
+                    a[pos + (rng.integers(nx), rng.integers(ny))] = rng.choice([1.0, 2.0, 0.25])
+                else:
+                    a[pos] = rng.random((nx, ny)) * rng.choice([1.0, 3.0])
+            a = a.astype(c["dtype"])
+            axes = [ScanAxis(sampling=1.0) if ch == "S" else OrdinalAxis(values=tuple(range(sizes["O"]))) for ch in c["layout"]]
+            arr = da.from_array(a, chunks=(1,) * len(ens_shape) + (max(1, nx // 2), ny)) if c["lazy"] else a
+            d = DiffractionPatterns(arr, sampling=(c["sx"], c["sy"]), fftshift=c["shifted"], ensemble_axes_metadata=axes, metadata={"energy": c["energy"]})
+            out = d.center_of_mass(units=c["units"])
+            got = np.asarray(out.array.compute() if hasattr(out.array, "compute") else out.array)
+            fx = np.fft.fftfreq(nx) * nx
+            fy = np.fft.fftfreq(ny) * ny
+            if c["shifted"]:
+                fx, fy = np.fft.fftshift(fx), np.fft.fftshift(fy)
+            s = d.angular_sampling if c["units"] == "mrad" else d.sampling
+            a64 = a.astype(np.float64)
+            tot = a64.sum(axis=(-2, -1))
+            exp = ((a64 * (fx * s[0])[:, None]).sum(axis=(-2, -1)) + 1j * (a64 * (fy * s[1])[None]).sum(axis=(-2, -1))) / tot
+            scan_idx = [i for i, ch in enumerate(c["layout"]) if ch == "S"]
+            exp = np.moveaxis(exp, scan_idx, list(range(exp.ndim - len(scan_idx), exp.ndim))) if scan_idx else exp
+            scale = max(abs(fx).max() * s[0], abs(fy).max() * s[1], s[0], s[1])
+            tol = (2e-5 if c["dtype"] == "float32" or c["units"] == "mrad" else 1e-9) * scale
+            ctx.count(f"conf-com-layout:{c['layout'] or 'none'}:{c['dtype']}:lazy={c['lazy']}:{c['units']}")
+            if got.shape != exp.shape:
+                ctx.violation("com-result-shape", c, {"observed": list(got.shape), "expected": list(exp.shape), "type": type(out).__name__})
+                return False
+            err = np.abs(got - exp)
+            if exceeds(np.nan if np.isnan(err).any() else (err.max() if err.size else 0.0), tol):
+                ctx.violation(f"com-per-position-not-weighted-mean:{c['layout'] or 'none'}:{'lazy' if c['lazy'] else 'eager'}", c,
+                              {"max_abs_err": float(np.nanmax(err)) if err.size else 0.0, "tol": tol})
+                return False
+            return True
+        # gradient integration (optionally a stack of different fields, complex64 input, chunked lazy input)
+        import dask.array as da
+        from abtem.core.axes import OrdinalAxis
+        nst = int(c.get("stack", 0))
+        fields = []
+        for k in range(max(nst, 1)):
+            ck = dict(c, modes=[[h, kk, amp * (1 + 0.5 * k), ph + k] for (h, kk, amp, ph) in c["modes"]], const=c.get("const", 0.0) + k)
+            fields.append(make_field(ck))
+        phi = np.stack([f[0] for f in fields]) if nst else fields[0][0]
+        g = (np.stack([f[1] + 1j * f[2] for f in fields]) if nst else fields[0][1] + 1j * fields[0][2]).astype(c.get("dtype", "complex128"))
+        if c.get("lazy"):
+            # several blocks along BOTH image axes (and one image per block of a stack): whole images must be gathered before the FFT
+            g = da.from_array(g, chunks=((1,) if nst else ()) + (max(2, g.shape[-2] // 2), max(2, g.shape[-1] // 3)))
+        ens = [OrdinalAxis(values=tuple(range(nst)))] if nst else []
+        im = Images(g, sampling=tuple(c["sampling"]), ensemble_axes_metadata=ens)
         out = im.integrate_gradient()
-        T = np.asarray(out.array.compute() if hasattr(out.array, "compute") else out.array)
-        exp = phi - phi.min()
-        err = float(np.abs(T - exp).max())
+        T = np.asarray(out.array.compute() if hasattr(out.array, "compute") else out.array).astype(np.float64)
+        if T.shape != phi.shape:
+            ctx.violation("integrate-gradient-shape", c, {"observed": list(T.shape), "expected": list(phi.shape)})
+            return False
+        # "up to a constant" per image
+        Tn = T - T.min(axis=(-2, -1), keepdims=True)
+        exp = phi - phi.min(axis=(-2, -1), keepdims=True)
+        d = np.abs(Tn - exp)
+        err = float("nan") if np.isnan(d).any() else float(d.max())
         amp = float(phi.max() - phi.min())
-        if err > 2e-4 * max(amp, 1e-3):
+        if exceeds(err, (2e-4 if c.get("dtype") == "complex64" else 1e-9) * max(amp, 1e-3)):
             ctx.violation("integrate-gradient-not-field", c, {"max_abs_err": err, "field_range": amp})
             return False
-        ctx.count(f"conf-grad:modes={len(c['modes'])}:lazy={bool(c.get('lazy'))}")
+        ctx.count(f"conf-grad:modes={len(c['modes'])}:lazy={bool(c.get('lazy'))}:stack={nst}:{c.get('dtype', 'complex128')}")
         return True
 
     def conformance(self, ctx: Ctx):
